@@ -182,14 +182,29 @@ func TestVerifCrash(t *testing.T) {
 				images = append(images, vTakeImage(adir, "file-complete-not-indexed"))
 			}
 		})
-		rd := &vCrashReader{data: data, cuts: cuts, dir: adir, images: &images}
+		// a quarter of the CAS uploads deliver bytes that do not match the digest: Put must refuse them,
+		// and a kill before it has returned must not leave anything servable under that digest
+		bad := kind == cache.CAS && old == nil && rng.Pct(25)
+		sent := data
+		if bad {
+			sent = append([]byte(nil), data...)
+			sent[len(sent)-1] ^= 0x5a
+		}
+		rd := &vCrashReader{data: sent, cuts: cuts, dir: adir, images: &images}
 		err := a.Put(ctx, kind, hash, int64(size), rd)
 		vHookByKey.Delete(lk)
-		if err != nil {
-			t.Errorf("in-flight put failed: %v", err)
-			return
+		if bad {
+			if err == nil {
+				cs.Violation("C01", "crash.bad-upload-accepted", "an upload whose bytes do not match the digest was acknowledged", cs.CaseOps())
+			}
+			cs.Count("upload.bad-digest")
+		} else {
+			if err != nil {
+				t.Errorf("in-flight put failed: %v", err)
+				return
+			}
+			images = append(images, vTakeImage(adir, "acknowledged"))
 		}
-		images = append(images, vTakeImage(adir, "acknowledged"))
 		cs.Count(fmt.Sprintf("upload.%s.%s", kind.String(), modeA))
 		cs.Distinct(fmt.Sprintf("%s:%s:%d:%v:%d", kind.String(), modeA, size, old != nil, len(acked)))
 		// ---- restart on every image
@@ -280,7 +295,9 @@ func TestVerifCrash(t *testing.T) {
 				}
 			}
 			// the in-flight key: absent, or complete (old or new value)
-			ok := func(got []byte) bool { return bytes.Equal(got, data) || (old != nil && bytes.Equal(got, old)) }
+			ok := func(got []byte) bool {
+				return (!bad && bytes.Equal(got, data)) || (old != nil && bytes.Equal(got, old))
+			}
 			stored := "raw" // representation of the in-flight file
 			if kind == cache.CAS && modeA == "zstd" {
 				stored = "compressed"
